@@ -1,6 +1,104 @@
-import PymocaVerif.Model.Index
-/-! # C23 — property theorems (in progress) -/
+import PymocaVerif.Lemmas.Index
+/-!
+# C23 — out-of-range array subscripts are rejected, never reinterpreted
+
+Property theorems only (helper lemmas: `Lemmas/Index.lean`; model and the specification-side definitions
+`FSub.denote`, `InRange`, `pos`, `Safe`, `LoopSafe`: `Model/Index.lean`).
+
+Every statement is for all dimension sizes `n`, all written integers and all loop value lists.
+`Safe cfg s` / `LoopSafe cfg …` name the subscripts on which the checks present in the tree (`cfg`) suffice;
+with the proposed checks (`Cfg.checked`) they hold for every subscript (`checked_is_safe`,
+`checked_is_loop_safe`), on the tree as it is (`Cfg.asIs`) they exclude exactly the classes listed as
+findings C23-F1..F3, and `asIs_reinterprets` shows that they cannot be dropped there.
+-/
 namespace PymocaVerif.Index
+
+/-- An accepted subscript selects exactly the elements it denotes, all of them inside `1..n`. -/
+theorem in_range_or_error (cfg : Cfg) (n : Nat) (s : FSub) (ps : List Nat) (hsafe : Safe cfg s)
+    (h : fixedSel cfg n n s = some ps) :
+    ∃ d, s.denote n = some d ∧ InRange n d ∧ ps = pos d :=
+  fixedSel_sound cfg n s ps hsafe h
+
+example : Safe Cfg.asIs (.range (.lit 2) (.lit 3)) ∧ fixedSel Cfg.asIs 4 4 (.range (.lit 2) (.lit 3)) = some [1, 2] := by
+  refine ⟨Or.inr (by decide), by decide⟩
+
+/-- A subscript that denotes an index outside `1..n` (or is ill-formed: step 0) makes generation raise. -/
+theorem out_of_range_error (cfg : Cfg) (n : Nat) (s : FSub) (hsafe : Safe cfg s)
+    (h : s.denote n = none ∨ ∃ d, s.denote n = some d ∧ ∃ i ∈ d, i < 1 ∨ (n : Int) < i) :
+    fixedSel cfg n n s = none :=
+  fixedSel_oob cfg n s hsafe h
+
+example : ∃ d, (FSub.range (.lit 2) (.lit 5)).denote 4 = some d ∧ ∃ i ∈ d, i < 1 ∨ ((4 : Nat) : Int) < i :=
+  ⟨[2, 3, 4, 5], by decide, 5, by decide, by decide⟩
+
+/-- An accepted subscript selects nothing only if it denotes nothing. -/
+theorem never_empty_silently (cfg : Cfg) (n : Nat) (s : FSub) (hsafe : Safe cfg s)
+    (h : fixedSel cfg n n s = some []) : s.denote n = some [] := by
+  obtain ⟨d, hd, _, hp⟩ := fixedSel_sound cfg n s [] hsafe h
+  rw [hd, pos_eq_nil d hp.symm]
+
+example : fixedSel Cfg.asIs 3 3 (.range (.lit 3) (.lit 2)) = some [] ∧ Safe Cfg.asIs (.range (.lit 3) (.lit 2)) :=
+  ⟨by decide, Or.inr (by decide)⟩
+
+/-- Integer subscripts are checked on every variant of the tree: outside `1..n` is an error. -/
+theorem integer_subscript_error (cfg : Cfg) (n : Nat) (k : IntS) (h : k.val < 1 ∨ (n : Int) < k.val) :
+    fixedSel cfg n n (.idx k) = none :=
+  fixedSel_oob cfg n (.idx k) trivial (Or.inr ⟨[k.val], rfl, k.val, by simp, h⟩)
+
+example : (IntS.lit 0).val < 1 ∨ ((3 : Nat) : Int) < (IntS.lit 0).val := Or.inl (by decide)
+
+/-- A non-empty slice whose upper bound exceeds the dimension is an error on every variant of the tree. -/
+theorem slice_upper_bound_error (cfg : Cfg) (n : Nat) (lo hi : IntS) (hne : lo.val ≤ hi.val)
+    (h : (n : Int) < hi.val) : fixedSel cfg n n (.range lo hi) = none := by
+  cases hlo : lo.eval with
+  | none => simp only [fixedSel, hlo]
+  | some a =>
+    cases hhi : hi.eval with
+    | none => simp only [fixedSel, hlo, hhi]
+    | some b =>
+      have ha := IntS.eval_val lo a hlo
+      have hb := IntS.eval_val hi b hhi
+      simp only [fixedSel, hlo, hhi, sliceSel]
+      by_cases hc : cfg.sliceCheck = true ∧ 0 < 1
+      · have hab : a ≤ b := by omega
+        have hbad : a < 1 ∨ a + (b - a) / ((1 : Nat) : Int) * ((1 : Nat) : Int) > (n : Int) := by
+          right; simp; omega
+        rw [if_pos hc, if_pos hab, if_pos hbad]
+      · rw [if_neg hc]
+        exact slice_stop_beyond n _ b 1 (by omega)
+
+example : (IntS.lit 1).val ≤ (IntS.lit 4).val ∧ ((3 : Nat) : Int) < (IntS.lit 4).val := by decide
+
+/-- With the proposed checks every subscript is `Safe`: the three theorems above hold without hypothesis. -/
+theorem checked_is_safe (s : FSub) : Safe Cfg.checked s := by
+  cases s with
+  | idx k => trivial
+  | all => trivial
+  | range lo hi => exact Or.inl rfl
+  | range3 a b c => exact ⟨rfl, Or.inl rfl⟩
+
+/-- A loop-dependent subscript `mul*i + off` that is accepted reads, at every loop value, the element it
+    denotes, and every such element exists. -/
+theorem loop_in_range_or_error (cfg : Cfg) (n : Nat) (vals : List Int) (mul off : Int) (ps : List Nat)
+    (hsafe : LoopSafe cfg vals mul off) (h : loopIdxSel cfg n n vals mul off = some ps) :
+    InRange n (vals.map (fun v => mul * v + off)) ∧ ps = pos (vals.map (fun v => mul * v + off)) :=
+  loopIdxSel_sound cfg n vals mul off ps hsafe h
+
+example : LoopSafe Cfg.asIs [1, 2] 1 1 ∧ loopIdxSel Cfg.asIs 3 3 [1, 2] 1 1 = some [1, 2] :=
+  ⟨Or.inr (by decide), by decide⟩
+
+/-- A loop-dependent subscript that leaves `1..n` at some loop value makes generation raise. -/
+theorem loop_out_of_range_error (cfg : Cfg) (n : Nat) (vals : List Int) (mul off : Int)
+    (hsafe : LoopSafe cfg vals mul off)
+    (h : ∃ v ∈ vals, mul * v + off < 1 ∨ (n : Int) < mul * v + off) :
+    loopIdxSel cfg n n vals mul off = none :=
+  loopIdxSel_oob cfg n vals mul off hsafe h
+
+example : LoopSafe Cfg.asIs [1, 2, 3] 1 1 ∧ ∃ v ∈ [1, 2, 3], (1 : Int) * v + 1 < 1 ∨ ((3 : Nat) : Int) < 1 * v + 1 :=
+  ⟨Or.inr (by decide), 3, by decide, by decide⟩
+
+theorem checked_is_loop_safe (vals : List Int) (mul off : Int) : LoopSafe Cfg.checked vals mul off :=
+  Or.inl rfl
 
 /-- A subscript on a scalar always makes generation raise. -/
 theorem scalar_subscript_error (cfg : Cfg) (s : Subs) (l : Option LoopRange) :
@@ -10,5 +108,37 @@ theorem scalar_subscript_error (cfg : Cfg) (s : Subs) (l : Option LoopRange) :
   | some r =>
     simp only [outcome]
     cases loopValues cfg r <;> simp [outcomeLoop]
+
+/-- More subscripts than dimensions always make generation raise. -/
+theorem too_many_subscripts_error (cfg : Cfg) (n m : Nat) (a b : FSub) (mul off : Int) (l : Option LoopRange) :
+    outcome cfg ⟨.d1 n, .ff a b, l⟩ = none ∧ outcome cfg ⟨.d1 n, .lf mul off b, l⟩ = none ∧
+    outcome cfg ⟨.d1 n, .fl a mul off, l⟩ = none ∧ outcome cfg ⟨.d1 n, .more, l⟩ = none ∧
+    outcome cfg ⟨.d2 n m, .more, l⟩ = none := by
+  cases l with
+  | none => simp [outcome, outcomeEq]
+  | some r =>
+    simp only [outcome]
+    cases loopValues cfg r <;> simp [outcomeLoop]
+
+/-- The hypotheses `Safe` / `LoopSafe` cannot be dropped on the tree as it is (findings C23-F1, F2, F3):
+    `x[0:2]` on `Real x[3]` selects nothing, `x[0:3]` selects `x[3]`, `x[2:p]` with `p = -1` selects `x[2]`,
+    `x[i-1]` over `i = 1, 2, 3` reads `x[3], x[1], x[2]`, `x[1:2:3]` on `Real x[4]` selects `x[1]` only. -/
+theorem asIs_reinterprets :
+    fixedSel Cfg.asIs 3 3 (.range (.lit 0) (.lit 2)) = some [] ∧
+    fixedSel Cfg.asIs 3 3 (.range (.lit 0) (.lit 3)) = some [2] ∧
+    fixedSel Cfg.asIs 3 3 (.range (.lit 2) (.par (-1))) = some [1] ∧
+    loopIdxSel Cfg.asIs 3 3 [1, 2, 3] 1 (-1) = some [2, 0, 1] ∧
+    fixedSel Cfg.asIs 4 4 (.range3 (.lit 1) (.lit 2) (.lit 3)) = some [0] ∧
+    (FSub.range3 (.lit 1) (.lit 2) (.lit 3)).denote 4 = some [1, 3] := by
+  decide
+
+/-- …and the same inputs are rejected, respectively read as Modelica says, once the proposed checks are in. -/
+theorem checked_rejects_them :
+    fixedSel Cfg.checked 3 3 (.range (.lit 0) (.lit 2)) = none ∧
+    fixedSel Cfg.checked 3 3 (.range (.lit 0) (.lit 3)) = none ∧
+    fixedSel Cfg.checked 3 3 (.range (.lit 2) (.par (-1))) = some [] ∧
+    loopIdxSel Cfg.checked 3 3 [1, 2, 3] 1 (-1) = none ∧
+    fixedSel Cfg.checked 4 4 (.range3 (.lit 1) (.lit 2) (.lit 3)) = some [0, 2] := by
+  decide
 
 end PymocaVerif.Index
